@@ -190,6 +190,8 @@ def op_setp(d, st, actor):
         if base(have) in ("str", "bool", "none"):
             kind = "all-" + base(have) if base(have) != "none" else st["vkind"]
             d.kinds[(type(o).__name__, st["param"])] = kind
+    if kind == "none" and base(have) in ("str", "bool"):
+        return  # str/bool collections with unset entries are refused at write time (C05's subject)
     if kind.startswith("all-"):
         # every object of that class gets a value of the same shape
         cls = type(o)
